@@ -114,20 +114,40 @@ func NewReporter(prop string) *Reporter {
 }
 
 func (r *Reporter) matchKnown(caseID string) *Finding {
+	// the build variant (@min, @allalive, ...) is not part of the identity of a finding
+	if i := strings.IndexByte(caseID, '@'); i >= 0 {
+		caseID = caseID[:i]
+	}
 	for i := range r.findings {
 		f := &r.findings[i]
 		if f.Kind != "finding" || f.Prop != r.Prop || f.Case == "" {
 			continue
 		}
-		if strings.HasSuffix(f.Case, "*") {
-			if strings.HasPrefix(caseID, strings.TrimSuffix(f.Case, "*")) {
-				return f
-			}
-		} else if f.Case == caseID {
+		if globMatch(f.Case, caseID) {
 			return f
 		}
 	}
 	return nil
+}
+
+// globMatch: '*' matches any run of characters.
+func globMatch(pat, s string) bool {
+	if !strings.Contains(pat, "*") {
+		return pat == s
+	}
+	parts := strings.Split(pat, "*")
+	if !strings.HasPrefix(s, parts[0]) {
+		return false
+	}
+	s = s[len(parts[0]):]
+	for i := 1; i < len(parts)-1; i++ {
+		j := strings.Index(s, parts[i])
+		if j < 0 {
+			return false
+		}
+		s = s[j+len(parts[i]):]
+	}
+	return strings.HasSuffix(s, parts[len(parts)-1])
 }
 
 // Violation reports a failing case. files are written into the replay dir.
